@@ -22,7 +22,7 @@ import (
 // cross verification of proofs between original and decoded systems / keys), (iv) under write
 // and read faults an error is returned and nothing partial is reported as success.
 
-var c09Feat = GenFeat{Commit: true, Lookup: true, Range: true, Hint: true, Wide: true, Bits: true, MaxOps: 8, MinOps: 1}
+var c09Feat = GenFeat{Commit: true, Lookup: true, Range: true, Hint: true, Wide: true, Bits: true, ScaledBool: true, MaxOps: 8, MinOps: 1}
 
 type artefact struct {
 	name string
